@@ -287,23 +287,63 @@ def isAlmostEqualWith (callableTest labelCheck guard checkVars : Bool) (places :
 
 def isAlmostEqual (places : Int) (a b : Obj) : M Bool := isAlmostEqualWith true true true true places a b
 
-/-! ### `==` and `!=` between models (numbers build a `Comparison` instead and are not modelled).
-    Only `BinaryQuadraticModel` defines them as `is_equal`; `QuadraticModel.__eq__` answers
-    `NotImplemented` for a model, views and CQMs have no `__eq__`: Python then tries the reflected
-    method of the right operand and finally falls back to identity. -/
+/-! ### `==` and `!=`.
+    `BinaryQuadraticModel.__eq__(other)`: a number builds the comparison `Eq(self, other)`, anything else is
+    `self.is_equal(other)`; `__ne__` is `not self.is_equal(other)`.  `QuadraticModel.__eq__` builds `Eq(self, other)` for a
+    number and answers `NotImplemented` otherwise; it has no `__ne__` (Python's default inverts `__eq__`).  Views and CQMs
+    define neither.  When the left operand answers `NotImplemented` — a number on the left always does — Python tries the
+    reflected method of the right operand and finally falls back to identity (`same`).
+    The *truth value* of `Eq(lhs, rhs)` (`sym.Eq.__bool__`) is `lhs.is_equal(rhs)`; that is what `opEq` reports for the
+    number forms `model == 3`, `3 == model` (NumPy scalars on the left go the same way through NumPy's object loop). -/
 
 def isBqm : Obj → Bool
   | .model m => match m.kind with | .bqm _ => true | _ => false
   | _ => false
 
+def isQm : Obj → Bool
+  | .model m => match m.kind with | .qm => true | _ => false
+  | _ => false
+
+def isNum : Obj → Bool
+  | .num _ => true
+  | _ => false
+
 def opEq (same : Bool) (a b : Obj) : M Bool :=
-  if isBqm a then isEqual a b
-  else if isBqm b then isEqual b a
+  if isBqm a then isEqual a b                       -- also `bqm == 3`: truth value of `Eq(bqm, 3)`
+  else if isBqm b then isEqual b a                  -- reflected (`3 == bqm`, `qm == bqm`, `view == bqm`)
+  else if isQm a && isNum b then isEqual a b        -- `qm == 3`
+  else if isNum a && isQm b then isEqual b a        -- `3 == qm`
   else pure same
 
 def opNe (same : Bool) (a b : Obj) : M Bool :=
   if isBqm a then (isEqual a b).map (!·)
   else if isBqm b then (isEqual b a).map (!·)
+  else if isQm a && isNum b then (isEqual a b).map (!·)     -- default `__ne__`: `not (qm == 3)`
+  else if isNum a && isQm b then (isEqual b a).map (!·)
   else pure (!same)
+
+/-! ### `==` / `!=` on the mapping views `m.linear`, `m.adj`, `m.adj[v]`, `m.quadratic` (`dimod/views/quadratic.py`).
+    `Linear`, `Adjacency`, `Neighborhood` inherit `Mapping.__eq__`: `dict(self.items()) == dict(other.items())` (the values
+    of an `Adjacency` are `Neighborhood`s, compared the same way).  `Quadratic.__eq__(self, other)` is its own:
+    `len(self) == len(other) and all(self[key] == value for key, value in other.items())`, `KeyError` → `False`, where
+    `self[(u, v)]` finds the interaction in either orientation.  None of them defines `__ne__`: `!=` inverts `==`.
+    A plain `dict` on either side goes through the same method (reflected). -/
+
+inductive VKind
+  | linear | adj | quadratic
+  | nbh (v : Label)          -- `m.adj[v]`
+
+/-- `Quadratic.__eq__(self, other)` as coded -/
+def quadraticEq (self other : QModel) : Bool :=
+  self.quad.length = other.quad.length && other.quad.all fun q => quadLookup self.quad q.1 q.2.1 = some q.2.2
+
+def viewEq (k : VKind) (a b : QModel) : Bool :=
+  match k with
+  | .linear => linearEq a b
+  | .adj => adjEq a b
+  | .quadratic => quadraticEq a b
+  | .nbh v => dictEq (a.nbh v) (b.nbh v)
+
+def viewNe (k : VKind) (a b : QModel) : Bool := !(viewEq k a b)
 
 end Eqm
